@@ -133,6 +133,8 @@ pub enum Op {
     /// render the current QR code with the long-lived SvgBuilder / ImageBuilder
     PRenderSvg,
     PRenderPng,
+    /// a call of the public (doc-hidden) `datamasking::mask` on a blank matrix of the given version's width
+    ForeignMask(usize, u8),
 }
 
 #[derive(Clone, Debug)]
@@ -155,6 +157,7 @@ fn op_json(op: &Op) -> Value {
         Op::PSet(o) => json!({"p_set": svg_op_json(o)}),
         Op::PRenderSvg => json!("p_render_svg"),
         Op::PRenderPng => json!("p_render_png"),
+        Op::ForeignMask(v, k) => json!({"foreign_mask": [v, k]}),
     }
 }
 
@@ -170,6 +173,9 @@ fn op_from(v: &Value) -> Option<Op> {
     }
     if v.as_str() == Some("p_render_png") {
         return Some(Op::PRenderPng);
+    }
+    if let Some(a) = v.get("foreign_mask").and_then(|x| x.as_array()) {
+        return Some(Op::ForeignMask(a.first()?.as_u64()? as usize, a.get(1)?.as_u64()? as u8));
     }
     if let Some(o) = v.get("p_set") {
         return Some(Op::PSet(svg_op_from(o)?));
@@ -604,6 +610,12 @@ pub fn check_history(h: &History, obs: &mut Obs) -> Result<(), Fail> {
                     }
                     obs.label("render:svg");
                 }
+            }
+            Op::ForeignMask(v, k) => {
+                let _ = catch(|| {
+                    let mut blank = QRCode::default(size((*v).clamp(1, 40)));
+                    fast_qr::datamasking::mask(&mut blank, f_mask(*k % 8));
+                });
             }
             Op::PSet(o) => {
                 pc("SvgBuilder setter", || apply_svg_op(&mut psvg, o))?;
@@ -1098,6 +1110,7 @@ pub fn history_strategy() -> BoxedStrategy<History> {
                     1 => Just(Op::RenderText),
                     2 => vec(svg_op(), 0..8).prop_map(Op::RenderSvg),
                     1 => vec(png_op(), 0..5).prop_map(Op::RenderPng),
+                    1 => (prop_oneof![3 => 1usize..=10, 1 => 1usize..=40], 0u8..8).prop_map(|(v, k)| Op::ForeignMask(v, k)),
                     3 => p_op().prop_map(Op::PSet),
                     3 => Just(Op::PRenderSvg),
                     1 => Just(Op::PRenderPng),
